@@ -172,6 +172,16 @@ class WriteAnalysis:
             for a in n.args[1:]:
                 self.bval(a)
             return BVal([("fixed", self.S, "struct.pack pads or truncates to the field width")])
+        if isinstance(n, ast.Call) and isinstance(n.func, ast.Attribute) and n.func.attr == "ljust" and len(n.args) == 2 and isinstance(n.args[1], ast.Constant) \
+                and n.args[1].value == b"\x00":
+            # X.ljust(N, NUL) = X followed by N - len(X) zero bytes when that is >= 0 (the length algebra demands the proof)
+            base = self.bval(n.func.value)
+            width = self.num(n.args[0])
+            if base is not None and width is not None:
+                ln, why = base.length(self.L, self.nonneg)
+                if ln is not None:
+                    return BVal(base.parts + [("zeros", width - ln)])
+            return BVal([("other", norm(n))])
         if isinstance(n, ast.Call) and isinstance(n.func, ast.Attribute) and n.func.attr in ("ljust", "rjust", "center") and len(n.args) >= 1:
             return BVal([("other", norm(n))])
         return None
